@@ -834,6 +834,7 @@ func resolveStrict(v ssa.Value, path []*ssa.BasicBlock) ssa.Value {
 // resolutions prune; everything else is kept (over-approximation).
 func pathFeasible(path []*ssa.BasicBlock) bool {
 	facts := map[ssa.Value]bool{}
+	nilFacts := map[ssa.Value]bool{}
 	for i := 0; i+1 < len(path); i++ {
 		b := path[i]
 		if len(b.Instrs) == 0 {
@@ -885,24 +886,34 @@ func pathFeasible(path []*ssa.BasicBlock) bool {
 		} else if !isNilConst(bin.Y) {
 			continue
 		}
-		leaves := resolveOnPath(x, path[:i+1])
-		if len(leaves) != 1 {
-			continue
-		}
+		leaf := resolveStrict(x, path[:i+1])
 		isNil, known := false, false
-		switch l := leaves[0].(type) {
+		switch l := leaf.(type) {
 		case *ssa.Const:
 			if l.IsNil() {
 				isNil, known = true, true
 			}
 		case *ssa.MakeInterface, *ssa.Alloc, *ssa.MakeClosure, *ssa.MakeMap, *ssa.MakeChan, *ssa.MakeSlice:
 			isNil, known = false, true
+		case *ssa.Call:
+			if n := calleeName(l); n == "fmt.Errorf" || n == "errors.New" {
+				isNil, known = false, true
+			}
 		case *ssa.UnOp:
 			if g, isG := l.X.(*ssa.Global); isG && l.Op == token.MUL && sentinelGlobal(g) {
 				isNil, known = false, true // initialised once in init with a fresh value, never assigned again
 			}
 		}
 		if !known {
+			// correlated tests of one value: `if err != nil {...}` ... `if err != nil {...}`
+			takenNil := (path[i+1] == b.Succs[0]) == (bin.Op == token.EQL)
+			if prev, seen := nilFacts[leaf]; seen {
+				if prev != takenNil {
+					return false
+				}
+			} else {
+				nilFacts[leaf] = takenNil
+			}
 			continue
 		}
 		takenTrue := path[i+1] == b.Succs[0]
